@@ -404,6 +404,41 @@ fn run(ctx: &mut Ctx) {
                     }
                 }
             }
+            // the same errors through the other ways `Display` can be asked to render: the alternate
+            // flag, a width with alignment, and a `&dyn Display` written into an existing buffer
+            for e in [DecodeError::IncompleteAVP(x), DecodeError::InvalidUtf8(x), DecodeError::AVPReadError(x)] {
+                let plain = match crate::monitor::panic::catch(|| e.to_string()) {
+                    crate::monitor::panic::Ended::Returned(s) => s,
+                    _ => continue,
+                };
+                let forms: [(&str, crate::monitor::panic::Ended<String>); 3] = [
+                    ("alternate {:#}", crate::monitor::panic::catch(|| format!("{:#}", e))),
+                    ("width {:>90}", crate::monitor::panic::catch(|| format!("{:>90}", e))),
+                    ("dyn Display", crate::monitor::panic::catch(|| {
+                        use std::fmt::Write;
+                        let d: &dyn std::fmt::Display = &e;
+                        let mut s = String::from("error: ");
+                        let _ = write!(s, "{}", d);
+                        s
+                    })),
+                ];
+                for (how, r) in forms {
+                    match r {
+                        crate::monitor::panic::Ended::Returned(t) => {
+                            ctx.rep.bucket("render.other_forms");
+                            if !contains_word(&t, &expected_word) && contains_word(&plain, &expected_word) {
+                                ctx.violate(
+                                    "C20:render:wrong-name:other-format",
+                                    format!("{:?} renders as {:?} with to_string() but as {:?} through {}; the text must show {:?}", e, plain, t, how, expected_word),
+                                    J::obj(vec![("error", J::s(format!("{:?}", e))), ("rendered", J::s(t.clone())), ("form", J::s(how))]),
+                                );
+                            }
+                        }
+                        crate::monitor::panic::Ended::Panicked(p) => ctx.violate(format!("C20:render:panic:{}", p.class()), format!("rendering {:?} through {} panicked: {}", e, how, p.message), J::obj(vec![("error", J::s(format!("{:?}", e)))])),
+                        _ => {}
+                    }
+                }
+            }
             if idx % 8000 == 7 || x < 2 {
                 let e = DecodeError::IncompleteAVP(x);
                 ctx.rep.sample(|| J::obj(vec![("error", J::s(format!("{:?}", e))), ("rendered", J::s(e.to_string())), ("dispatch", J::s(format!("{:?}", disp)))]));
